@@ -255,7 +255,9 @@ impl<'a, G: AffineRepr> Iterator for AggregatedGensIter<'a, G> {
     type Item = &'a G;
 
     fn next(&mut self) -> Option<Self::Item> {
-        if self.gen_idx >= self.n {
+        // Skip to the next party that still has generators to yield; with
+        // `n == 0` every party is empty and the iterator must yield nothing.
+        while self.gen_idx >= self.n && self.party_idx < self.m {
             self.gen_idx = 0;
             self.party_idx += 1;
         }
